@@ -1,7 +1,333 @@
-From Coq Require Import ZArith QArith Qabs List Bool Lia Lqa.
+(* C19 proofs, part 1: sums, ARMA impulse response, ECDF, periodogram indices, Hamilton filter. *)
+From Coq Require Import ZArith QArith Qabs List Bool Lia Lqa Setoid Morphisms ZifyBool.
 From QE Require Import Base.Num C19.Model.
 Import ListNotations.
 Open Scope Q_scope.
 
-Lemma sumQ_cons x l : sumQ (x :: l) == x + sumQ l.
-Proof. unfold sumQ. cbn [fold_right]. apply Qred_correct. Qed.
+(* ------------------------------------------------------------------ basics *)
+Lemma natQ_S n : natQ (S n) == natQ n + 1.
+Proof. unfold natQ. rewrite Nat2Z.inj_succ. unfold Z.succ. rewrite inject_Z_plus. reflexivity. Qed.
+Lemma natQ_nonneg n : 0 <= natQ n.
+Proof. unfold natQ. change 0 with (inject_Z 0). rewrite <- Zle_Qle. lia. Qed.
+Lemma natQ_pos n : (0 < n)%nat -> 0 < natQ n.
+Proof. intro. unfold natQ. change 0 with (inject_Z 0). rewrite <- Zlt_Qlt. lia. Qed.
+Lemma natQ_neq0 n : (0 < n)%nat -> ~ natQ n == 0.
+Proof. intros H E. pose proof (natQ_pos n H). lra. Qed.
+
+Lemma sumQ_eq l : sumQ l == sum_list l.
+Proof. induction l as [|x l IH]; cbn [sumQ sum_list fold_right]; [reflexivity|]. fold (sumQ l). rewrite Qred_correct, IH. reflexivity. Qed.
+
+Lemma sum_list_ext {A} (f g : A -> Q) l : (forall x, In x l -> f x == g x) -> sum_list (map f l) == sum_list (map g l).
+Proof.
+  induction l as [|x l IH]; intro H; cbn [map sum_list]; [reflexivity|].
+  rewrite (H x (or_introl eq_refl)), IH; [reflexivity|]. intros; apply H; right; assumption.
+Qed.
+Lemma sum_list_scale {A} c (f : A -> Q) l : sum_list (map (fun x => c * f x) l) == c * sum_list (map f l).
+Proof. induction l as [|x l IH]; cbn [map sum_list]; [ring|]. rewrite IH. ring. Qed.
+Lemma sum_list_app a b : sum_list (a ++ b) == sum_list a + sum_list b.
+Proof. induction a as [|x a IH]; cbn [app sum_list]; [ring|]. rewrite IH. ring. Qed.
+
+Lemma nth_map_gen {A B} (f : A -> B) l j d d' : (j < length l)%nat -> nth j (map f l) d' = f (nth j l d).
+Proof. intro H. rewrite (nth_indep _ d' (f d)) by (rewrite map_length; assumption). apply map_nth. Qed.
+Lemma nth_map_seq {A} (f : nat -> A) (d : A) s n j : (j < n)%nat -> nth j (map f (seq s n)) d = f (s + j)%nat.
+Proof. intro H. rewrite (nth_map_gen _ _ j 0%nat) by (rewrite seq_length; assumption). rewrite seq_nth by assumption. reflexivity. Qed.
+
+Lemma getQ_app_zeros l m i : getQ (l ++ repeat 0 m) i = getQ l i.
+Proof.
+  unfold getQ. destruct (Nat.lt_ge_cases i (length l)) as [H|H].
+  - apply app_nth1. assumption.
+  - rewrite app_nth2 by assumption. rewrite (nth_overflow l) by assumption.
+    destruct (Nat.lt_ge_cases (i - length l) m) as [H'|H'].
+    + apply nth_repeat.
+    + apply nth_overflow. rewrite repeat_length. assumption.
+Qed.
+
+(* ------------------------------------------------------------------ ARMA *)
+Lemma dotQ_cons x a y b : dotQ (x :: a) (y :: b) == x * y + dotQ a b.
+Proof. cbn [dotQ]. apply Qred_correct. Qed.
+
+(* dotQ a b = sum_{i < |b|} a_i b_i, with a_i = 0 beyond the end of a *)
+Lemma dotQ_sum : forall b a, dotQ a b == sum_list (map (fun i => getQ a i * getQ b i) (seq 0 (length b))).
+Proof.
+  induction b as [|y b IH]; intro a.
+  - destruct a; reflexivity.
+  - destruct a as [|x a].
+    + cbn [dotQ length]. symmetry. rewrite (sum_list_ext _ (fun _ => 0 * 0)).
+      * induction (seq 0 (S (length b))); cbn [map sum_list]; [reflexivity|]. rewrite IHl. ring.
+      * intros i _. unfold getQ. destruct i; cbn; ring.
+    + rewrite dotQ_cons, IH. cbn [length seq map sum_list]. unfold getQ at 3 4. cbn [nth].
+      rewrite <- seq_shift, map_map. reflexivity.
+Qed.
+
+Lemma nth_firstn_lt {A} (d : A) : forall k l i, (i < k)%nat -> nth i (firstn k l) d = nth i l d.
+Proof.
+  induction k as [|k IH]; intros l i H; [lia|]. destruct l as [|x l]; [reflexivity|].
+  destruct i as [|i]; [reflexivity|]. cbn. apply IH. lia.
+Qed.
+
+Lemma rev_firstn_nth (l : list Q) k i : (k <= length l)%nat -> (i < k)%nat ->
+  getQ (rev (firstn k l)) i = getQ l (k - 1 - i).
+Proof.
+  intros Hk Hi. unfold getQ. assert (L : length (firstn k l) = k) by (apply firstn_length_le; assumption).
+  rewrite rev_nth by lia. rewrite L. replace (k - S i)%nat with (k - 1 - i)%nat by lia.
+  apply nth_firstn_lt. lia.
+Qed.
+
+(* sum_{i=1..k} a_{i-1} l_{k-i} *)
+Lemma dotQ_rev_firstn a l k : (k <= length l)%nat ->
+  dotQ a (rev (firstn k l)) == sum_list (map (fun i => getQ a (i - 1) * getQ l (k - i)) (seq 1 k)).
+Proof.
+  intro Hk. rewrite dotQ_sum. rewrite rev_length, firstn_length_le by assumption.
+  rewrite <- (seq_shift k 0), map_map. apply sum_list_ext. intros i Hi. apply in_seq in Hi.
+  rewrite rev_firstn_nth by lia. replace (S i - 1)%nat with i by lia. replace (k - S i)%nat with (k - 1 - i)%nat by lia.
+  reflexivity.
+Qed.
+
+Lemma sdiv_loop_spec num dtl a0 : forall fuel j acc, j = length acc ->
+  let res := sdiv_loop fuel j num dtl a0 acc in
+  length res = (j + fuel)%nat /\ firstn j res = rev acc /\
+  forall k, (j <= k < j + fuel)%nat ->
+    getQ res k == (getQ num k - dotQ dtl (rev (firstn k res))) / a0.
+Proof.
+  induction fuel as [|f IH]; intros j acc Hj; cbv zeta; cbn [sdiv_loop].
+  - split; [rewrite rev_length; lia|]. split; [|intros; lia].
+    subst j. rewrite <- rev_length. apply firstn_all.
+  - set (h := Qred ((getQ num j - dotQ dtl acc) / a0)).
+    destruct (IH (S j) (h :: acc) ltac:(cbn; lia)) as (L & Pf & Hk). cbv zeta in *.
+    set (res := sdiv_loop f (S j) num dtl a0 (h :: acc)) in *.
+    split; [lia|].
+    assert (Pj : firstn j res = rev acc).
+    { replace j with (Init.Nat.min j (S j)) by lia. rewrite <- firstn_firstn, Pf. cbn [rev].
+      rewrite firstn_app. rewrite rev_length. replace (j - length acc)%nat with 0%nat by lia.
+      cbn [firstn]. rewrite app_nil_r. subst j. rewrite <- rev_length. apply firstn_all. }
+    split; [exact Pj|].
+    intros k Hk'. destruct (Nat.eq_dec k j) as [->|Hne].
+    + assert (E : getQ res j = h).
+      { unfold getQ. rewrite <- (firstn_skipn (S j) res) at 1. rewrite Pf. cbn [rev].
+        rewrite app_nth1 by (rewrite app_length, rev_length; cbn; lia).
+        rewrite app_nth2 by (rewrite rev_length; lia). rewrite rev_length.
+        replace (j - length acc)%nat with 0%nat by lia. reflexivity. }
+      rewrite E, Pj, rev_involutive. unfold h. apply Qred_correct.
+    + apply Hk. lia.
+Qed.
+
+Lemma set_params_shape phi theta :
+  exists a b, set_params phi theta =
+    ((1 :: as_list theta) ++ repeat 0 a, (1 :: map Qopp (as_list phi)) ++ repeat 0 b) /\
+    length ((1 :: as_list theta) ++ repeat 0 a) = length ((1 :: map Qopp (as_list phi)) ++ repeat 0 b).
+Proof.
+  unfold set_params.
+  set (ma := 1 :: as_list theta). set (ar := 1 :: map Qopp (as_list phi)).
+  destruct (length ar <? length ma)%nat eqn:E1.
+  - replace (length ma <? length (ar ++ repeat 0%Q (length ma - length ar)))%nat with false
+      by (rewrite app_length, repeat_length; lia).
+    exists 0%nat, (length ma - length ar)%nat. cbn [repeat]. rewrite !app_nil_r. split; [reflexivity|].
+    rewrite app_length, repeat_length. lia.
+  - destruct (length ma <? length ar)%nat eqn:E2.
+    + exists (length ar - length ma)%nat, 0%nat. cbn [repeat]. rewrite !app_nil_r. split; [reflexivity|].
+      rewrite app_length, repeat_length. lia.
+    + exists 0%nat, 0%nat. cbn [repeat]. rewrite !app_nil_r. split; [reflexivity|]. lia.
+Qed.
+
+Lemma arma_impulse_spec phi theta n :
+  exists psi, impulse_response phi theta n = Some psi /\ length psi = n /\
+    forall j, (j < n)%nat ->
+      getQ psi j == (if (j =? 0)%nat then 1 else getQ (as_list theta) (j - 1)) + arsum (as_list phi) psi j.
+Proof.
+  unfold impulse_response. destruct (set_params_shape phi theta) as (a & b & -> & L).
+  unfold dimpulse. replace (_ <? _)%nat with false by lia.
+  cbn [app]. replace (Qeq_bool 1 0) with false by reflexivity.
+  set (num := repeat 0 _ ++ _). set (dtl := map Qopp (as_list phi) ++ repeat 0 b).
+  assert (En : num = 1 :: as_list theta ++ repeat 0 a).
+  { unfold num. cbn [app length] in *. replace (_ - _)%nat with 0%nat by lia. reflexivity. }
+  destruct (sdiv_loop_spec num dtl 1 n 0%nat [] eq_refl) as (Ln & _ & Hk). cbv zeta in *.
+  eexists. split; [reflexivity|]. split; [lia|].
+  intros j Hj. rewrite (Hk j ltac:(lia)). rewrite dotQ_rev_firstn by lia. unfold arsum.
+  assert (Enum : getQ num j == (if (j =? 0)%nat then 1 else getQ (as_list theta) (j - 1))).
+  { rewrite En. destruct j as [|j]; [reflexivity|]. cbn [Nat.eqb]. unfold getQ at 1. cbn [nth].
+    fold (getQ (as_list theta ++ repeat 0 a) j). rewrite getQ_app_zeros. replace (S j - 1)%nat with j by lia. reflexivity. }
+  rewrite Enum.
+  rewrite (sum_list_ext _ (fun i => (-1) * (getQ (as_list phi) (i - 1) * getQ (sdiv_loop n 0 num dtl 1 []) (j - i)))).
+  - rewrite sum_list_scale. field.
+  - intros i _. unfold dtl. rewrite getQ_app_zeros. unfold getQ at 1.
+    destruct (Nat.lt_ge_cases (i - 1) (length (as_list phi))) as [H|H].
+    + rewrite (nth_map_gen _ _ _ 0) by assumption. unfold getQ. ring.
+    + rewrite nth_overflow by (rewrite map_length; assumption). unfold getQ. rewrite (nth_overflow (as_list phi)) by assumption. ring.
+Qed.
+
+(* ------------------------------------------------------------------ ECDF *)
+Lemma natQ_add a b : natQ (a + b) == natQ a + natQ b.
+Proof. unfold natQ. rewrite Nat2Z.inj_add, inject_Z_plus. reflexivity. Qed.
+
+Lemma ecdf_spec obs x :
+  ecdf obs x == natQ (length (filter (fun o => Qle_bool o x) obs)) / natQ (length obs).
+Proof.
+  unfold ecdf. rewrite Qred_correct, sumQ_eq.
+  assert (G : sum_list (map (fun o => if Qle_bool o x then 1 else 0) obs)
+              == natQ (length (filter (fun o => Qle_bool o x) obs))).
+  { induction obs as [|o obs IH]; cbn [map sum_list filter]; [reflexivity|].
+    rewrite IH. destruct (Qle_bool o x); cbn [length]; [rewrite natQ_S|]; ring. }
+  rewrite G. reflexivity.
+Qed.
+
+Lemma ecdf_count obs x :
+  forall o, In o (filter (fun o => Qle_bool o x) obs) <-> In o obs /\ o <= x.
+Proof. intro o. rewrite filter_In, Qle_bool_iff. reflexivity. Qed.
+
+(* ------------------------------------------------------------------ periodogram *)
+Lemma filter_seq_lt m : forall k s,
+  filter (fun j => (j <? m)%nat) (seq s k) = seq s (Nat.min k (m - s)).
+Proof.
+  induction k as [|k IH]; intro s; [reflexivity|]. cbn [seq filter].
+  destruct (s <? m)%nat eqn:E.
+  - rewrite IH. replace (Nat.min (S k) (m - s)) with (S (Nat.min k (m - S s))) by lia. reflexivity.
+  - rewrite IH. replace (Nat.min k (m - S s)) with 0%nat by lia. replace (Nat.min (S k) (m - s)) with 0%nat by lia. reflexivity.
+Qed.
+
+Lemma firstn_seq k s n : firstn k (seq s n) = seq s (Nat.min k n).
+Proof.
+  revert s n. induction k as [|k IH]; intros s n; [reflexivity|]. destruct n as [|n]; [reflexivity|].
+  cbn [seq firstn Nat.min]. rewrite IH. reflexivity.
+Qed.
+
+Lemma map_fst_combine_seq {A} (l : list A) s : map fst (combine (seq s (length l)) l) = seq s (length l).
+Proof. revert s. induction l as [|x l IH]; intro s; [reflexivity|]. cbn. rewrite IH. reflexivity. Qed.
+
+(* retained frequencies (as fractions of 2 pi) are exactly the j/n with 0 <= j < n and 2j <= n, in order *)
+Lemma periodogram_indices (dft : list (Q * Q)) :
+  let n := length dft in
+  map fst (periodogram dft) =
+  map (fun j => natQ j / natQ n) (filter (fun j => (2 * j <=? n)%nat) (seq 0 n)).
+Proof.
+  cbv zeta. unfold periodogram. set (n := length dft).
+  rewrite <- firstn_map, map_map. cbn [fst].
+  rewrite <- (map_map fst (fun j => natQ j / natQ n)). unfold n at 3. rewrite map_fst_combine_seq. fold n.
+  rewrite firstn_map, firstn_seq.
+  rewrite (filter_ext _ (fun j => (j <? S (n / 2))%nat)).
+  - rewrite filter_seq_lt. rewrite Nat.sub_0_r, Nat.min_comm. reflexivity.
+  - intro j. pose proof (Nat.div_mod_eq n 2). pose proof (Nat.mod_upper_bound n 2 ltac:(lia)).
+    destruct (2 * j <=? n)%nat eqn:E1, (j <? S (n / 2))%nat eqn:E2; try reflexivity; lia.
+Qed.
+
+Lemma periodogram_length (dft : list (Q * Q)) :
+  length (periodogram dft) = Nat.min (S (length dft / 2)) (length dft).
+Proof. unfold periodogram. rewrite firstn_length, map_length, combine_length, seq_length. lia. Qed.
+
+Lemma periodogram_value (dft : list (Q * Q)) k : (k < length (periodogram dft))%nat ->
+  let n := length dft in
+  let c := nth k dft (0, 0) in
+  fst (nth k (periodogram dft) (0, 0)) == natQ k / natQ n /\
+  snd (nth k (periodogram dft) (0, 0)) == (fst c * fst c + snd c * snd c) / natQ n.
+Proof.
+  intro Hk. pose proof (periodogram_length dft) as L. cbv zeta. unfold periodogram in *.
+  rewrite nth_firstn_lt by lia.
+  rewrite (nth_map_gen _ _ k (0%nat, (0, 0))) by (rewrite combine_length, seq_length; lia).
+  rewrite combine_nth by (rewrite seq_length; reflexivity). rewrite seq_nth by lia.
+  cbn [fst snd plus]. rewrite Qred_correct. split; reflexivity.
+Qed.
+
+(* ------------------------------------------------------------------ Hamilton filter *)
+Lemma zip_sub_length : forall a b, length (zip_sub a b) = Nat.min (length a) (length b).
+Proof.
+  induction a as [|x a IH]; intros [|[v|] b]; cbn [zip_sub length Nat.min]; try reflexivity; rewrite IH; reflexivity.
+Qed.
+Lemma zip_sub_nth : forall a b t, (t < length a)%nat -> (t < length b)%nat ->
+  nth t (zip_sub a b) None =
+  match nth t b None with Some v => Some (Qred (getQ a t - v)) | None => None end.
+Proof.
+  induction a as [|x a IH]; intros [|[v|] b] t Ha Hb; cbn [length] in *; try lia;
+    destruct t as [|t]; cbn [zip_sub nth]; try reflexivity; unfold getQ; cbn [nth]; apply IH; lia.
+Qed.
+
+Lemma Qs_eq_spec : forall a b, Qs_eq a b = true -> length a = length b /\ forall i, getQ a i == getQ b i.
+Proof.
+  induction a as [|x a IH]; intros [|y b] H; cbn [Qs_eq] in H; try discriminate.
+  - split; [reflexivity|]. intro i. reflexivity.
+  - apply andb_true_iff in H. destruct H as [H1 H2]. apply Qeq_bool_iff in H1.
+    destruct (IH b H2) as [L E]. split; [cbn; lia|]. intros [|i]; unfold getQ; cbn [nth]; [assumption|apply E].
+Qed.
+
+Lemma solve_spec A b x : solve A b = Some x ->
+  length (mat_vec A x) = length b /\ forall i, getQ (mat_vec A x) i == getQ b i.
+Proof.
+  unfold solve. destruct (gauss_solve A b) as [x'|]; [|discriminate].
+  destruct (Qs_eq (mat_vec A x') b) eqn:E; [|discriminate]. intro H. injection H as <-.
+  apply Qs_eq_spec. assumption.
+Qed.
+
+Lemma nth_repeat_lt {A} (d v : A) : forall k t, (t < k)%nat -> nth t (repeat v k) d = v.
+Proof. induction k as [|k IH]; intros [|t] H; try lia; cbn; [reflexivity|apply IH; lia]. Qed.
+Lemma nth_repeat_app_lt {A} (d v : A) k l t : (t < k)%nat -> nth t (repeat v k ++ l) d = v.
+Proof. intro H. rewrite app_nth1 by (rewrite repeat_length; assumption). apply nth_repeat_lt. assumption. Qed.
+Lemma nth_repeat_app_ge {A} (d v : A) k l t : (k <= t)%nat -> nth t (repeat v k ++ l) d = nth (t - k) l d.
+Proof. intro H. rewrite app_nth2 by (rewrite repeat_length; assumption). rewrite repeat_length. reflexivity. Qed.
+
+(* row r of the regressor matrix belongs to date t = p+h-1+r: (1, y_{t-h}, y_{t-h-1}, ..., y_{t-h-p+1}) *)
+Lemma ham_X_row y h p r : (r < ham_rows (length y) h p)%nat ->
+  nth r (ham_X y h p) [] = 1 :: map (fun j => getQ y (p - j + r)) (seq 1 p).
+Proof. intro H. unfold ham_X. rewrite nth_map_seq by assumption. reflexivity. Qed.
+Lemma ham_X_length y h p : length (ham_X y h p) = ham_rows (length y) h p.
+Proof. unfold ham_X. rewrite map_length, seq_length. reflexivity. Qed.
+
+Lemma hamilton_spec_reg y h p cycle trend :
+  hamilton y h (Some p) = Some (cycle, trend) ->
+  let T := length y in
+  let X := ham_X y h p in
+  (1 <= p + h <= T)%nat /\
+  exists b,
+    (* normal equations X'X b = X'y *)
+    (forall i, getQ (mat_vec (XtX X (S p)) b) i == getQ (Xty X (ham_target y h p) (S p)) i) /\
+    length trend = T /\ length cycle = T /\
+    forall t, (t < T)%nat ->
+      ((t < p + h - 1)%nat -> nth t cycle None = None /\ nth t trend None = None) /\
+      ((p + h - 1 <= t)%nat ->
+         exists c tr, nth t cycle None = Some c /\ nth t trend None = Some tr /\
+                      tr = dotQ (nth (t - (p + h - 1)) X []) b /\ c + tr == getQ y t).
+Proof.
+  unfold hamilton. destruct ((length y <? p + h)%nat || (p + h <? 1)%nat) eqn:E; [discriminate|].
+  destruct (solve _ _) as [b|] eqn:Es; [|discriminate]. intro H. injection H as Hc Ht. cbv zeta.
+  rewrite Ht in Hc. apply orb_false_iff in E. destruct E as [E1 E2]. apply Nat.ltb_ge in E1, E2.
+  assert (Hb : (1 <= p + h <= length y)%nat) by (split; assumption). split; [exact Hb|]. exists b.
+  destruct (solve_spec _ _ _ Es) as [_ Hne]. split; [exact Hne|].
+  set (X := ham_X y h p) in *.
+  assert (LX : length (mat_vec X b) = (length y - (p + h - 1))%nat).
+  { unfold mat_vec. rewrite map_length. unfold X. rewrite ham_X_length. unfold ham_rows. lia. }
+  assert (Lt : length trend = length y).
+  { subst trend. rewrite app_length, repeat_length, map_length, LX. lia. }
+  split; [exact Lt|]. split; [subst cycle; rewrite zip_sub_length; lia|].
+  intros t Htl. split.
+  - intro Hlt. assert (Et : nth t trend None = None) by (subst trend; apply nth_repeat_app_lt; assumption).
+    split; [|exact Et]. subst cycle. rewrite zip_sub_nth by lia. rewrite Et. reflexivity.
+  - intro Hge.
+    assert (Et : nth t trend None = Some (dotQ (nth (t - (p + h - 1)) X []) b)).
+    { subst trend. rewrite nth_repeat_app_ge by assumption.
+      rewrite (nth_map_gen _ _ _ 0) by lia. f_equal. unfold mat_vec.
+      rewrite (nth_map_gen _ _ _ []) by (unfold mat_vec in LX; rewrite map_length in LX; lia). reflexivity. }
+    eexists. eexists. split; [subst cycle; rewrite zip_sub_nth by lia; rewrite Et; reflexivity|].
+    split; [exact Et|]. split; [reflexivity|]. rewrite Qred_correct. ring.
+Qed.
+
+Lemma hamilton_spec_rw y h cycle trend :
+  hamilton y h None = Some (cycle, trend) ->
+  let T := length y in
+  (h <= T)%nat /\ length cycle = T /\ length trend = T /\
+  forall t, (t < T)%nat ->
+    ((t < h)%nat -> nth t cycle None = None /\ nth t trend None = None) /\
+    ((h <= t)%nat ->
+       exists c tr, nth t cycle None = Some c /\ nth t trend None = Some tr /\
+                    c == getQ y t - getQ y (t - h) /\ c + tr == getQ y t).
+Proof.
+  unfold hamilton. destruct (length y <? h)%nat eqn:E; [discriminate|].
+  intro H. injection H as Hc Ht. cbv zeta. rewrite Hc in Ht. apply Nat.ltb_ge in E. assert (Hh : (h <= length y)%nat) by lia.
+  assert (Lc : length cycle = length y).
+  { subst cycle. rewrite app_length, repeat_length, map_length, seq_length. lia. }
+  split; [exact Hh|]. split; [exact Lc|]. split; [subst trend; rewrite zip_sub_length; lia|].
+  intros t Htl. split.
+  - intro Hlt. assert (Ec : nth t cycle None = None) by (subst cycle; apply nth_repeat_app_lt; assumption).
+    split; [exact Ec|]. subst trend. rewrite zip_sub_nth by lia. rewrite Ec. reflexivity.
+  - intro Hge.
+    assert (Ec : nth t cycle None = Some (Qred (getQ y (h + (t - h)) - getQ y (t - h)))).
+    { subst cycle. rewrite nth_repeat_app_ge by assumption. rewrite nth_map_seq by lia. reflexivity. }
+    eexists. eexists. split; [exact Ec|]. split; [subst trend; rewrite zip_sub_nth by lia; rewrite Ec; reflexivity|].
+    replace (h + (t - h))%nat with t by lia. rewrite !Qred_correct. split; ring.
+Qed.
